@@ -1,6 +1,6 @@
 (* C31 — Date and IP codecs agree with the standard library. *)
 From FH Require Import Model.Base Gen.GenC31 Spec.Calendar Spec.HttpDate Spec.IPv4Spec Model.DateIP
-  Proof.CalendarFacts Proof.CalendarProof Proof.DateProof Proof.IPv4Proof Model.IPv6 Spec.IPv6Text Proof.IPv6Proof.
+  Proof.CalendarFacts Proof.CalendarProof Proof.DateProof Proof.IPv4Proof Model.IPv6 Spec.IPv6Text Proof.IPv6Proof Model.Uri Proof.UriProof.
 Open Scope Z_scope.
 
 (* For every 29-byte input the fast RFC 1123 parser equals spec_time_parse, the strict-shape part of
@@ -74,6 +74,14 @@ Theorem C31_ipv6_exact : forall a port, wf_bytes a -> ~ In RBR a ->
   v6_ok (validateIPv6Literal (LBR :: a ++ RBR :: port)) = is_port port && spec_ipv6 a.
 Proof. exact v6_bracket. Qed.
 Print Assumptions C31_ipv6_exact.
+
+(* the same at the public API: whatever URI.Parse accepts (any host argument, any URI) and reports through Host() with a leading '['
+   is "[" IPv6-address "]" optional-port — zone, port and lower-casing included *)
+Theorem C31_uri_bracketed_host_only_valid : forall hostArg uri u t, wf_bytes hostArg -> wf_bytes uri ->
+  Uri.parse hostArg uri = UOk u -> Uri.Host u = LBR :: t ->
+  exists a port, t = a ++ RBR :: port /\ ~ In RBR a /\ ~ In RBR port /\ is_port port = true /\ spec_ipv6 a = true.
+Proof. exact uri_bracket_host_valid. Qed.
+Print Assumptions C31_uri_bracketed_host_only_valid.
 
 (* the model's loop fuel is never exhausted *)
 Theorem C31_ipv6_model_total : forall s, wf_bytes s -> parseIPv6Hextets s false <> HexOutOfFuel.
